@@ -54,6 +54,9 @@ def _value(b, off, kind, nested=False):
             t, off = _u64(b, off)
             k, off = _u64(b, off)
             v, off = _value(b, off, k, nested=True)
+            if t == 0x40000600 and isinstance(v, bytes) and len(v) % 8 == 0:
+                # CKA_ALLOWED_MECHANISMS inside a nested template is kept as the caller's raw CK_MECHANISM_TYPE array (host byte order)
+                v = tuple(sorted(struct.unpack("<%dQ" % (len(v) // 8), v)))
             m[t] = v
         if off != end:
             raise FormatError("attribute map length mismatch")
